@@ -1,7 +1,8 @@
 // C12: the line protocol parser is total and accepts exactly well-formed lines.
 // Bounded-exhaustive: every byte string up to a length bound over an 11-byte alphabet, every single (thorough: double)
-// byte mutation of valid templates, every short sequence of known-status lines, limit cases, and a timestamp × precision
-// family judged against the exact (math/big) nanosecond value.
+// byte mutation of valid templates, every short sequence of known-status lines, limit cases, a timestamp × precision
+// family judged against the exact (math/big) nanosecond value, and a tags family (every key sequence of 2..4 tags over a
+// small key alphabet: every multiset of keys in every ordering) judged by "unique tag keys".
 package c12
 
 import (
@@ -35,6 +36,7 @@ type Case struct {
 	HTTP   bool     `json:"http_parser"`
 	Expect *Expect  `json:"expect,omitempty"`
 	Frags  []string `json:"fragments,omitempty"`
+	Keys   []string `json:"tag_keys,omitempty"` // family tags: the tag keys of the enumerated line, in input order
 }
 
 // Expect is the reference verdict for inputs built from parts whose well-formedness is known by construction.
@@ -513,6 +515,10 @@ func sigOf(cs Case, f finding) string {
 		// class = violated clause + where the exact nanosecond value lies + precision
 		return vlib.JoinSig("timestamps", strings.TrimPrefix(f.Clause, "expect/"), tsFeature(cs))
 	}
+	if cs.Fam == "tags" && strings.HasPrefix(f.Clause, "expect/") {
+		// class = violated clause + which key repeats + whether the keys arrive sorted
+		return vlib.JoinSig("tags", strings.TrimPrefix(f.Clause, "expect/"), tagFeature(cs.Keys))
+	}
 	return vlib.JoinSig(f.Clause, inputFeature(cs.In))
 }
 
@@ -547,6 +553,9 @@ func (e *explorer) do(cs Case) {
 	label := strings.TrimSuffix(cs.Fam, "2")
 	if cs.Fam == "timestamps" {
 		label += "[" + tsFeature(cs) + "]"
+	}
+	if cs.Fam == "tags" {
+		label += "[" + tagFeature(cs.Keys) + "]"
 	}
 	e.outc[fmt.Sprintf("%s: points=%s %s", label, np, reason(whole.err))]++
 	for _, f := range fs {
@@ -785,6 +794,125 @@ func timestampCases() []Case {
 	return out
 }
 
+// ---------------------------------------------------------------------------------------------
+// family "tags": "unique tag keys" / "the error names exactly the lines that were rejected". A line with n tags whose
+// keys are EVERY sequence of length n over a small key alphabet (= every multiset of keys, with and without repeated
+// keys, in every ordering, sorted and unsorted), values pairwise distinct. Reference, from the statement: a line that
+// repeats a tag key is not well-formed (it must be rejected and named by the error, and yields no point); a line with
+// pairwise distinct keys is well-formed and yields the point whose tags are the given pairs ordered by key (bytewise).
+
+// tagKeyAlphabet: a prefix pair whose extension byte is above '=' (a, ab), one whose extension byte is below '='
+// (a, a-: the raw texts "a-=" / "a=" order the other way round than the keys), an unrelated key and a key that starts
+// with a byte below '=' and is the smallest of all.
+var tagKeyAlphabet = []string{"a", "b", "ab", "a-", "0", "ba"}
+
+// tagFeature: which key repeats (none / only the smallest key of the line / some other key) and the input order.
+func tagFeature(keys []string) string {
+	smallest := ""
+	for i, k := range keys {
+		if i == 0 || k < smallest {
+			smallest = k
+		}
+	}
+	cnt := map[string]int{}
+	dup := "none"
+	for _, k := range keys {
+		cnt[k]++
+		if cnt[k] == 2 {
+			if k != smallest {
+				dup = "non-smallest-key"
+			} else if dup == "none" {
+				dup = "smallest-key"
+			}
+		}
+	}
+	order := "sorted"
+	for i := 1; i < len(keys); i++ {
+		if keys[i-1] > keys[i] {
+			order = "unsorted"
+		}
+	}
+	return "dup=" + dup + "/order=" + order
+}
+
+// tagLine builds the line for a key sequence and its by-construction verdict ("" = must be rejected).
+func tagLine(keys []string, valPrefix string) (line, point string) {
+	type kv struct{ k, v string }
+	var tags []kv
+	var sb strings.Builder
+	sb.WriteString("tg")
+	dup := false
+	seen := map[string]bool{}
+	for i, k := range keys {
+		v := valPrefix + strconv.Itoa(i)
+		tags = append(tags, kv{k, v})
+		sb.WriteString("," + k + "=" + v)
+		dup = dup || seen[k]
+		seen[k] = true
+	}
+	sb.WriteString(" f=1i 7")
+	if dup {
+		return sb.String(), ""
+	}
+	sort.Slice(tags, func(i, j int) bool { return tags[i].k < tags[j].k })
+	var tg []string
+	for _, t := range tags {
+		tg = append(tg, t.k+"="+t.v)
+	}
+	return sb.String(), "tg|" + strings.Join(tg, ",") + "|f=int64:1|7"
+}
+
+func tagCases(thorough bool, visit func(Case)) {
+	alpha, maxTags := tagKeyAlphabet[:5], 4
+	if thorough {
+		alpha, maxTags = tagKeyAlphabet, 5
+	}
+	for n := 2; n <= maxTags; n++ {
+		idx := make([]int, n)
+		for {
+			keys := make([]string, n)
+			rev := make([]string, n)
+			for i, x := range idx {
+				keys[i] = alpha[x]
+				rev[n-1-i] = alpha[x]
+			}
+			line, pt := tagLine(keys, "v")
+			rline, rpt := tagLine(rev, "w")
+			// contexts: alone; after / before a well-formed line; followed by the line with its keys in reverse order
+			type part struct{ text, point string }
+			for _, ctx := range [][]part{
+				{{line, pt}},
+				{{"m 1=1", "m||1=float64:1|default"}, {line, pt}},
+				{{line, pt}, {"m,t=1 i=1i 1", "m|t=1|i=int64:1|1"}},
+				{{line, pt}, {rline, rpt}},
+			} {
+				ex := &Expect{}
+				var texts []string
+				for _, p := range ctx {
+					texts = append(texts, p.text)
+					if p.point == "" {
+						ex.Rejected = append(ex.Rejected, p.text)
+					} else {
+						ex.Points = append(ex.Points, p.point)
+					}
+				}
+				visit(Case{Fam: "tags", In: []byte(strings.Join(texts, "\n")), Prec: "ns", HTTP: true, Expect: ex, Keys: keys})
+			}
+			i := n - 1
+			for ; i >= 0; i-- {
+				idx[i]++
+				if idx[i] < len(alpha) {
+					break
+				}
+				idx[i] = 0
+			}
+			if i < 0 {
+				break
+			}
+		}
+	}
+}
+
 func explore(c *vlib.Ctx, w *watch) {
 	e := &explorer{c: c, outc: map[string]int64{}, w: w}
 	defer func() {
@@ -802,6 +930,9 @@ func explore(c *vlib.Ctx, w *watch) {
 	for _, cs := range timestampCases() {
 		e.visit(cs)
 	}
+
+	// family "tags"
+	tagCases(c.Thorough(), e.visit)
 
 	// family "lines": every sequence of 1..3 (thorough: 4) fragments joined by '\n', with and without a final '\n'
 	maxSeq := 3
@@ -979,10 +1110,10 @@ func replay(c *vlib.Ctx, raw json.RawMessage) (bool, string) {
 func TestCheck(t *testing.T) {
 	vlib.Main(t, &vlib.Check{
 		ID: "C12", Level: "exploration",
-		Rule: "family bytes: every byte string of length 0..6 (thorough 0..7) over {m , = space \" \\ 1 i \\n - t}; family mutants: 6 valid templates, every single deletion/duplication/substitution by each of the 11 alphabet bytes + {# tab NUL e . u CR T 0xff} at precisions ns and s (thorough: additionally every second mutation over the 11-byte alphabet); family lines: every sequence of 1..3 (thorough 4) of 12 lines of known well-formedness (4 valid incl. quoted newline and escapes, 5 malformed incl. duplicate tag and trailing backslash, blank, whitespace, comment) joined by \\n with/without final \\n, reference = concatenation of the known verdicts; family limits: composite key size MaxKeyLength−1/=/+1 (3 shapes) and timestamps at Min/Max±1 and int64 overflow × {ns,us,ms,s}; family timestamps: for every precision {ns,us,ms,s} (multiplier 1/1e3/1e6/1e9) every int64 unit count u = ±x (≈3.5·10³ lines in total) with x ∈ {0..10, 2^j−1..2^j+1 (j≤63), 10^e−1..10^e+1 and d·10^e (d∈{2,3,5,9}, e≤18, i.e. up to 19 digits), MaxNanoTime−3..+3, Max/MinNanoTime÷mult −2..+2, ⌊K·2^63/mult⌋−2..+2 for K∈{1..24,32,50,64,100,128,256,1000,1024,2^16,10^5,10^6,2^20,2^24,10^8,10^9,2^30}} that fits int64; reference = exact product u·mult in math/big: the line must be rejected (and named by the error) iff the product is outside [MinNanoTime,MaxNanoTime], else the point's time must equal the product. Per input: models.ParsePointsWithPrecision (and http/points.Parser for limits, mutants, lines≤2, bytes≤4/5) must return within 10 s without panic; every returned point: non-empty measurement, ≥1 field, no field with an empty key, readable fields, unique tag keys, key+4+field ≤ MaxKeyLength, time in [MinNanoTime,MaxNanoTime]; per-line exactness: result = concatenation of the results of the \\n-separated lines parsed alone and error = their errors joined (inputs with a '\"' may keep a newline inside a group that contains a quote). non-trivial = input returns ≥1 point, or contains a newline, or has a by-construction expectation (cases distinct by construction)",
+		Rule: "family bytes: every byte string of length 0..6 (thorough 0..7) over {m , = space \" \\ 1 i \\n - t}; family mutants: 6 valid templates, every single deletion/duplication/substitution by each of the 11 alphabet bytes + {# tab NUL e . u CR T 0xff} at precisions ns and s (thorough: additionally every second mutation over the 11-byte alphabet); family lines: every sequence of 1..3 (thorough 4) of 12 lines of known well-formedness (4 valid incl. quoted newline and escapes, 5 malformed incl. duplicate tag and trailing backslash, blank, whitespace, comment) joined by \\n with/without final \\n, reference = concatenation of the known verdicts; family limits: composite key size MaxKeyLength−1/=/+1 (3 shapes) and timestamps at Min/Max±1 and int64 overflow × {ns,us,ms,s}; family timestamps: for every precision {ns,us,ms,s} (multiplier 1/1e3/1e6/1e9) every int64 unit count u = ±x (≈3.5·10³ lines in total) with x ∈ {0..10, 2^j−1..2^j+1 (j≤63), 10^e−1..10^e+1 and d·10^e (d∈{2,3,5,9}, e≤18, i.e. up to 19 digits), MaxNanoTime−3..+3, Max/MinNanoTime÷mult −2..+2, ⌊K·2^63/mult⌋−2..+2 for K∈{1..24,32,50,64,100,128,256,1000,1024,2^16,10^5,10^6,2^20,2^24,10^8,10^9,2^30}} that fits int64; reference = exact product u·mult in math/big: the line must be rejected (and named by the error) iff the product is outside [MinNanoTime,MaxNanoTime], else the point's time must equal the product; family tags: lines \"tg,k1=v0,..,kn=v(n-1) f=1i 7\" for n = 2..4 (thorough 2..5) tags whose key sequence (k1..kn) is EVERY sequence over the key alphabet {a, b, ab, a-, 0} (thorough + ba) — i.e. every multiset of keys with and without repeated keys in every ordering, sorted and unsorted; prefix pairs whose extension byte lies above / below '=' — with pairwise distinct values, each in 4 contexts (alone, after a well-formed line, before a well-formed line, followed by the line with the reversed key sequence); reference from the statement: a line that repeats a tag key must be rejected and named by the error and yields no point, a line with pairwise distinct keys must be returned as the point whose tags are the given pairs ordered bytewise by key. Per input: models.ParsePointsWithPrecision (and http/points.Parser for limits, timestamps, tags, mutants, lines≤2, bytes≤4/5) must return within 10 s without panic; every returned point: non-empty measurement, ≥1 field, no field with an empty key, readable fields, unique tag keys, key+4+field ≤ MaxKeyLength, time in [MinNanoTime,MaxNanoTime]; per-line exactness: result = concatenation of the results of the \\n-separated lines parsed alone and error = their errors joined (inputs with a '\"' may keep a newline inside a group that contains a quote). non-trivial = input returns ≥1 point, or contains a newline, or has a by-construction expectation (cases distinct by construction)",
 		Assumptions: []string{
 			"arbitrary bytes beyond length 7 / outside the alphabet are not covered except through the template mutations",
-			"per-line exactness on the bytes/mutants families is metamorphic (single-line results come from the parser itself); the lines, limits and timestamps families use verdicts known by construction",
+			"per-line exactness on the bytes/mutants families is metamorphic (single-line results come from the parser itself); the lines, limits, timestamps and tags families use verdicts known by construction",
 			"hang detection uses a 10 s wall-clock watchdog per input (normal cost ≈ 1 µs)",
 		},
 		QuickBudgetS: 45, ThoroughBudgetS: 800,
